@@ -16,6 +16,7 @@ import numpy as np
 
 from vmon import common as C
 from vmon import rec
+from vmon import world as W
 from vmon.env import VERIF
 from vmon.hooks import Hooks
 from vmon.scenario import run_scenario, tadd
@@ -29,7 +30,7 @@ LEVEL_TEXT = ("Real end-to-end runs over generated frame layouts (spacing 1-5 st
 LEVEL_NOTE = "Tolerance 2e-5 relative (float32 fields accumulate u += dU over up to 5 steps). Trusts the harness's layout oracle and netCDF4."
 RULE = ("case = one layout (frame positions in steps, file partition, start, stop, direction, scalars, packing). Non-trivial: the run passes at least one frame step after the "
         "start (a hand-over happens); distinct by (positions, partition, start, stop, direction).")
-MANDATORY = ["file_unavailable_at_the_moment_of_a_file_switch", "files_rewritten_with_another_layout_after_a_run", "same_single_fraction_requested_every_step", "warm_start_probe_steps", "warm_start_reaches_last_frame", "files_with_different_time_references", "frame_passed_while_state_empty", "forward", "reversed", "spacing_equals_dt", "irregular_spacing", "one_frame_per_file", "file_entered_in_middle", "start_on_frame", "start_between_frames",
+MANDATORY = ["two_simulations_alive_and_stepped_in_turn", "file_unavailable_at_the_moment_of_a_file_switch", "files_rewritten_with_another_layout_after_a_run", "same_single_fraction_requested_every_step", "warm_start_probe_steps", "warm_start_reaches_last_frame", "files_with_different_time_references", "frame_passed_while_state_empty", "forward", "reversed", "spacing_equals_dt", "irregular_spacing", "one_frame_per_file", "file_entered_in_middle", "start_on_frame", "start_between_frames",
              "scalar_fields", "packed", "handover_steps_observed", "probe_steps", "reads_checked", "first_read_straddles_files", "time_units_hours_or_days", "packed_per_file_parameters"]
 ASSUMPTIONS = ["frames on the model time grid, strictly increasing, covering [start, stop] (as the property quantifies)"]
 TIMEOUT = {"quick": 900, "thorough": 3000}
@@ -353,6 +354,20 @@ def run_case(case: dict[str, Any], wd: Path) -> dict[str, Any]:
                 if abs(got - vals[n_latest]) > 0.06:
                     V.append(C.viol(f"warm-started run, model time {snap['time']}: scalar {name} = {got}, the latest frame at or before that time (frame {n_latest}) holds {vals[n_latest]}", **desc))
                     break
+    def compare_with_solo(log_x, what):
+        ref_by_step = {sn["step"]: sn for sn in log}
+        for sn in log_x:
+            r0 = ref_by_step.get(sn["step"])
+            if r0 is None:
+                continue
+            same = all(np.array_equal(sn["variables"][k], r0["variables"].get(k)) for k in sn["variables"]) and all(
+                f_ in r0["vel"] and np.array_equal(sn["vel"][f_][0], r0["vel"][f_][0]) and np.array_equal(sn["vel"][f_][1], r0["vel"][f_][1]) for f_ in sn["vel"])
+            cnt["steps_compared_with_the_solo_run"] = cnt.get("steps_compared_with_the_solo_run", 0) + 1
+            if not same:
+                V.append(C.viol(f"{what} step {sn['step']} ({sn['time']}) was carried out with "
+                                f"u = {[float(np.ravel(v_[0])[0]) for v_ in sn['vel'].values()][:3]}, the run on its own had {[float(np.ravel(v_[0])[0]) for v_ in r0['vel'].values()][:3]}", **desc))
+                break
+
     if len(files) > 1 and case["salt"] % 4 in (0, 2) and not V:
         # fault at a file switch: the file that the look-ahead is about to open cannot be opened at that moment (moved away, and put back right after
         # the attempt).  Whatever the run does then - it stops - no step may be carried out with another field than the fault-free run had.
@@ -383,16 +398,24 @@ def run_case(case: dict[str, Any], wd: Path) -> dict[str, Any]:
         if inj["done"]:
             sit["file_unavailable_at_the_moment_of_a_file_switch"] = 1
             sit["run_stopped_by_the_unavailable_file"] = int(not res3.ok)
-            ref_by_step = {sn["step"]: sn for sn in log}
-            for sn in log3:
-                r0 = ref_by_step.get(sn["step"])
-                if r0 is None:
-                    continue
-                same = all(np.array_equal(sn["variables"][k], r0["variables"].get(k)) for k in sn["variables"]) and all(
-                    f_ in r0["vel"] and np.array_equal(sn["vel"][f_][0], r0["vel"][f_][0]) and np.array_equal(sn["vel"][f_][1], r0["vel"][f_][1]) for f_ in sn["vel"])
-                cnt["steps_compared_after_a_file_fault"] = cnt.get("steps_compared_after_a_file_fault", 0) + 1
-                if not same:
-                    V.append(C.viol(f"a forcing file could not be opened at the moment of a file switch; the run went on and step {sn['step']} ({sn['time']}) was carried out with "
-                                    f"u = {[float(np.ravel(v_[0])[0]) for v_ in sn['vel'].values()][:3]}, the fault-free run had {[float(np.ravel(v_[0])[0]) for v_ in r0['vel'].values()][:3]}", **desc))
-                    break
+            compare_with_solo(log3, "a forcing file could not be opened at the moment of a file switch; the run went on and")
+    if case["salt"] % 7 == 5 and not V:
+        # two simulations alive in one process and stepped in turn (the second one on other forcing values): the first one's fields are its own
+        from vmon.scenario import build_config, run_two_models_alive, write_yaml  # noqa: PLC0415
+
+        two = wd / "two"
+        two.mkdir(parents=True, exist_ok=True)
+        wB = dict(w, vel=dict(kind="frame_coded", amps_u=[-1.7 * a for a in au], amps_v=[0.3 * a for a in av]))
+        worldB = W.write_world(two / "worldB", wB)
+        write_yaml(build_config(dict(run, ibm={}, output=dict(period=dt, filename="twoB.nc")), two, worldB), two / "b.yaml")
+        write_yaml(build_config(dict(run, output=dict(period=dt, filename="twoA.nc")), two, world), two / "a.yaml")
+        rec.reset()
+        r2m = run_two_models_alive(two / "a.yaml", two / "b.yaml", two)
+        log4 = list(rec.LOG)
+        rec.reset()
+        sit["two_simulations_alive_and_stepped_in_turn"] = 1
+        if not r2m.ok:
+            V.append(C.viol(f"two simulations alive in one process, stepped in turn: {r2m.exc} (each of them runs alone)", **desc))
+        else:
+            compare_with_solo(log4, "two simulations alive in one process, stepped in turn:")
     return C.result(V[:3], sit, cnt, nontrivial=len(handovers) > 0, key=key, sample=sample)
